@@ -172,14 +172,29 @@ type PackFns struct {
 func SweepField(r *verifmc.Run, scheme string, f Field, fn PackFns, positions []int, encs []uint32, allPatterns bool) {
 	size := N * f.C / 8
 	keyBase := "C04|" + scheme + "|" + f.Name
+	const block = 1 << 15
 	type job struct {
-		pos int
-		bg  int
+		pos, bg int
+		lo, hi  uint32 // value block [lo, hi)
 	}
 	var jobs []job
+	top := uint32(1) << uint(f.C)
 	for _, pos := range positions {
 		for bg := 0; bg < 2; bg++ {
-			jobs = append(jobs, job{pos, bg})
+			if encs == nil && f.C > 16 && bg == 1 && pos != 0 && !r.Thorough() {
+				continue
+			}
+			if encs != nil {
+				jobs = append(jobs, job{pos, bg, 0, top})
+				continue
+			}
+			for lo := uint32(0); lo < top; lo += block {
+				hi := lo + block
+				if hi > top {
+					hi = top
+				}
+				jobs = append(jobs, job{pos, bg, lo, hi})
+			}
 		}
 	}
 	verifmc.ParallelFor(len(jobs), func(ji int) {
@@ -235,7 +250,7 @@ func SweepField(r *verifmc.Run, scheme string, f Field, fn PackFns, positions []
 				}
 			}
 		} else {
-			for e := uint32(0); e <= f.MaxEnc; e++ {
+			for e := j.lo; e < j.hi && e <= f.MaxEnc; e++ {
 				packOne(e)
 			}
 		}
@@ -245,12 +260,16 @@ func SweepField(r *verifmc.Run, scheme string, f Field, fn PackFns, positions []
 		}
 		bgPat := uint32(0)
 		if j.bg == 1 {
-			bgPat = 1<<uint(f.C) - 1
+			bgPat = top - 1
 		}
 		in := fillBits(N, f.C, bgPat)
-		var op P
+		var op, exp P
+		for i := range exp {
+			exp[i] = f.decode(bgPat)
+		}
 		unpackOne := func(pat uint32) {
 			setBits(in, j.pos*f.C, f.C, pat)
+			exp[j.pos] = f.decode(pat)
 			for i := range op {
 				op[i] = 0xdeadbeef
 			}
@@ -259,26 +278,20 @@ func SweepField(r *verifmc.Run, scheme string, f Field, fn PackFns, positions []
 			if pat&1023 == 0 || (encs != nil && !allPatterns) {
 				r.Distinct(scheme, f.Name, "unpack", j.pos, j.bg, pat)
 			}
-			for i := range op {
-				w := f.decode(bgPat)
-				if i == j.pos {
-					w = f.decode(pat)
-				}
-				if op[i]%Q != w {
-					r.Violation(keyBase+"|unpack|mismatch", fmt.Sprintf("%s/unpack/pos=%d/bg=%d/pat=%d", f.Name, j.pos, j.bg, pat),
-						fmt.Sprintf("%s %s unpack: bit pattern %#x at position %d (background %#x): coefficient %d decodes to %d (mod q), BitUnpack gives %d", scheme, f.Name, pat, j.pos, bgPat, i, op[i]%Q, w),
-						map[string]interface{}{"pos": j.pos, "pattern": pat, "input": verifmc.Hex(in)})
-					break
+			if op != exp {
+				for i := range op {
+					if op[i]%Q != exp[i] {
+						r.Violation(keyBase+"|unpack|mismatch", fmt.Sprintf("%s/unpack/pos=%d/bg=%d/pat=%d", f.Name, j.pos, j.bg, pat),
+							fmt.Sprintf("%s %s unpack: bit pattern %#x at position %d (background %#x): coefficient %d decodes to %d (mod q), BitUnpack gives %d", scheme, f.Name, pat, j.pos, bgPat, i, op[i]%Q, exp[i]),
+							map[string]interface{}{"pos": j.pos, "pattern": pat, "input": verifmc.Hex(in)})
+						break
+					}
 				}
 			}
-			if pat%1021 == 0 || pat == 1<<uint(f.C)-1 {
+			if pat%1021 == 0 || pat == top-1 {
 				rp := f.refUnpack(in)
 				for i := range rp {
-					w := f.decode(bgPat)
-					if i == j.pos {
-						w = f.decode(pat)
-					}
-					if rp[i] != int64(w) {
+					if rp[i] != int64(exp[i]) {
 						panic("harness: fast unpack oracle disagrees with the literal reference for " + f.Name)
 					}
 				}
@@ -286,12 +299,12 @@ func SweepField(r *verifmc.Run, scheme string, f Field, fn PackFns, positions []
 		}
 		if encs != nil && !allPatterns {
 			for _, e := range encs {
-				if e < 1<<uint(f.C) {
+				if e < top {
 					unpackOne(e)
 				}
 			}
 		} else {
-			for e := uint32(0); e < 1<<uint(f.C); e++ {
+			for e := j.lo; e < j.hi; e++ {
 				unpackOne(e)
 			}
 		}
@@ -321,20 +334,18 @@ func allPositions() []int {
 	return p
 }
 
-// periodPositions returns one full period of the packing loop at the start and at the end.
+// periodPositions returns one full period of the packing loop at the start, and the last position.
 func periodPositions(period int) []int {
 	var p []int
 	for i := 0; i < period; i++ {
 		p = append(p, i)
 	}
-	for i := N - period; i < N; i++ {
-		p = append(p, i)
-	}
-	return p
+	return append(p, N-1)
 }
 
-// SweepFieldStd runs the standard plan for a field: the full domain at one period of positions
-// at both ends of the polynomial, and the boundary alphabet at all 256 positions.
+// SweepFieldStd runs the standard plan for a field: the full domain at the positions of the
+// first packing period and at the last position, and the boundary alphabet at all 256 positions.
+// In the quick tier fields wider than 16 bits get the second background at position 0 only.
 func SweepFieldStd(r *verifmc.Run, scheme string, f Field, fn PackFns, period int) {
 	SweepField(r, scheme, f, fn, periodPositions(period), nil, true)
 	SweepField(r, scheme, f, fn, allPositions(), boundaryEncs(f), false)
